@@ -31,6 +31,16 @@ def check(ctx, cfg):
     r1(ctx, cfg)
     r2_r3(ctx, cfg)
     r4(ctx, cfg)
+    r5(ctx, cfg)
+
+
+def r5(ctx, cfg):
+    """"reduces ... every pending unbonding from it ... leaves delegations to other validators ... unchanged": slash selects queue
+    entries by their `validator` tag (R3), so the tag must be the validator the tokens were undelegated from and each
+    undelegation must stay an entry of its own - the Undelegate part of C14.R4 (entry = (sender, validator, amount, maturity)
+    appended at the back of the loaded queue and saved), under C16's id"""
+    from rules import C14
+    C14.r4(ctx, cfg, R="C16.R5", parts=("Undelegate",))
 
 
 def r1(ctx, cfg):
@@ -203,6 +213,14 @@ def r2_r3(ctx, cfg, R2="C16.R2", R3="C16.R3"):
     sv = store_calls(P, f, QUEUE, ("save",))
     ok = len(sv) == 1 and contains(P.call_args(f, sv[0][1], sv[0][0])[2], lambda x: x[0] == "call" and x[1] == "cw_storage_plus::Item::may_load")
     ctx.ob(R2, key, "slashed-queue-saved", ok, "the slashed queue is not saved", fn=f, sample="UNBONDING_QUEUE.save(queue)")
+    # ... on every successful path: a shortcut such as "nothing bonded, nothing to slash" in front of the queue walk leaves the
+    # pending unbondings of that validator whole
+    sites = q.success_return_sites(P, f)
+    svv1 = store_calls(P, f, VINFO, ("save",))
+    out = sorted({b for (b, i), v in sites if not (len(sv) == 1 and cf.dominates(sv[0][0], b) and len(svv1) == 1 and cf.dominates(svv1[0][0], b))})
+    ctx.ob(R2, key, "succeeds-only-after-saving-queue-and-validator", bool(sites) and not out,
+           "slash can produce a success at block(s) %s without having saved the scaled unbonding queue and the validator info" % out, fn=f,
+           sample="every non-Err result dominated by UNBONDING_QUEUE.save and VALIDATOR_INFO.save")
     # R3: keys written carry the slashed validator
     n = 0
     for item, names in ((STAKES, ("remove", "update", "save")), (VINFO, ("save", "remove", "update"))):
